@@ -399,6 +399,7 @@ def iter_beacon_config_blocks(
 
         # Determine most common bytes in the (xordecoded) file
         bytes_counter = collections.Counter()
+        fxor.seek(0)  # the searches above have left the file position at the end
         for chunk in iter(functools.partial(fxor.read, io.DEFAULT_BUFFER_SIZE), b""):
             fourgrams = grouper(chunk, n=4, fillvalue=0)
             bytes_counter.update(gram[0] for gram in fourgrams if gram[0] == gram[1] == gram[2] == gram[3])
